@@ -233,6 +233,67 @@ pub fn o_c04(_p: &Plan, b: &Built, _st: &mut Stats) -> Result<bool, Fail> {
     Ok(big_group || l0.stages.len() >= 8)
 }
 
+/// an outer system conflicts with a batch only through something inside it / only through the
+/// controller's declaration
+pub fn c07_interesting(b: &Built) -> (bool, bool) {
+    use crate::plan::conflict_sets;
+    let f = &b.flat;
+    let mut via_inner = false;
+    let mut via_ctl = false;
+    for bt in f.sys.iter().filter(|s| s.is_batch) {
+        for &x in &f.builders[bt.bid].members {
+            if x == bt.idx || !f.conflict(x, bt.idx) {
+                continue;
+            }
+            let xs = &f.sys[x];
+            let with_ctl = conflict_sets(&xs.acc_r, &xs.acc_w, &bt.own_r, &bt.own_w);
+            if with_ctl {
+                // does it conflict through the controller only?
+                let inner_conf = f
+                    .descendants(bt.idx)
+                    .iter()
+                    .any(|d| !f.sys[*d].is_tl && f.conflict(x, *d));
+                if !inner_conf {
+                    via_ctl = true;
+                }
+            } else {
+                via_inner = true;
+            }
+        }
+    }
+    (via_inner, via_ctl)
+}
+
+pub fn o_c07(_p: &Plan, b: &Built, st: &mut Stats) -> Result<bool, Fail> {
+    oracles::check_complete(&b.flat, &b.layouts)?;
+    oracles::check_isolation(&b.flat, &b.layouts)?;
+    oracles::check_deps(&b.flat, &b.layouts)?;
+    oracles::check_barriers(&b.flat, &b.layouts)?;
+    let mut info = oracles::NeedlessInfo::default();
+    oracles::check_needless(&b.flat, &b.layouts, &mut info)?;
+    let (via_inner, via_ctl) = c07_interesting(b);
+    if via_inner {
+        st.class("outer_conflicts_only_through_inner_system");
+    }
+    if via_ctl {
+        st.class("outer_conflicts_only_through_controller_data");
+    }
+    let deep = b.flat.sys.iter().any(|s| {
+        s.is_batch
+            && b.flat.builders[s.bid].members.iter().any(|x| {
+                *x != s.idx
+                    && b.flat
+                        .descendants(s.idx)
+                        .iter()
+                        .any(|d| b.flat.ancestors(*d).len() >= 3 && b.flat.conflict(*x, *d))
+            })
+    });
+    if deep {
+        st.class("outer_conflicts_with_depth3_inner_system");
+    }
+    Ok(via_inner || via_ctl)
+}
+
 pub fn sample_extra(b: &Built) -> serde_json::Value {
     json!(oracles::describe(&b.flat, &b.layouts))
 }
